@@ -83,6 +83,17 @@ def check(case):
         g = gfapy.Gfa(lines, vlevel=1)
         t_before = str(gfapy.Gfa(lines, vlevel=1))
         try:
+            # line-by-line conversion with the paths FIRST (a path names the edges it uses: the names must be the ones the edges then carry)
+            gl = gfapy.Gfa(lines, vlevel=1)
+            order = [l for l in gl.lines if l.record_type == "P"] + [l for l in gl.lines if l.record_type != "P"]
+            pieces = [x for l in order for x in [l.to_gfa2_s()] if x]
+            try:
+                gfapy.Gfa("\n".join(pieces), vlevel=1).validate()
+            except gfapy.Error as e:
+                fail("line-by-line-conversion-inconsistent:%s" % type(e).__name__, harness.short(e, 200) + " :: " + harness.short("\n".join(pieces), 300))
+        except gfapy.Error as e:
+            fail("line-by-line-to_gfa2-raises-%s" % type(e).__name__, harness.short(e, 200))
+        try:
             g2 = g.to_gfa2()
             t2 = str(g2)
         except gfapy.Error as e:
